@@ -22,6 +22,7 @@ import (
 	"os/exec"
 	"regexp"
 	"runtime"
+	"runtime/debug"
 	"sort"
 	"strconv"
 	"strings"
@@ -66,6 +67,9 @@ type File struct {
 	Blocks []Block `json:"blocks,omitempty"`
 	Sep    string  `json:"sep,omitempty"` // white space written after every block
 	Raw    string  `json:"raw,omitempty"` // literal content (only for files whose extension does not match)
+	// Broken marks a MATCHING file that the loader must refuse: "syntax" (unterminated action) or
+	// "empty" (zero bytes). Only in the consistency-only kind "loose" and in "conc".
+	Broken string `json:"broken,omitempty"`
 }
 
 // Req is one request to a provider.
@@ -77,6 +81,15 @@ type Req struct {
 
 // Case is the sequential kind.
 type Case struct {
+	Files []File `json:"files"`
+	Reqs  []Req  `json:"reqs"`
+}
+
+// LooseCase is the consistency-only kind: the file set may contain broken matching files and
+// several files of ONE layer defining the same name / carrying top-level text. No winner is
+// modelled for those; repeated requests, cached and uncached providers and fresh providers over
+// the same filespace must agree (per provider kind), and nothing may panic.
+type LooseCase struct {
 	Files []File `json:"files"`
 	Reqs  []Req  `json:"reqs"`
 }
@@ -312,6 +325,132 @@ func Gen(rt *rapid.T) Case {
 	return c
 }
 
+// genLooseLayer draws the files of one layer for the loose kind: literal/func bodies only.
+// With dup the files pick their names independently (same-layer duplicates, several top-level
+// bodies); without it the names are partitioned as in the strict kind.
+func genLooseLayer(rt *rapid.T, layer, owner, tag string, dup bool) []File {
+	pool := defNames[:4]
+	nfiles := 1 + hx.Uniform(rt, 3, "nfiles")
+	if dup && nfiles == 1 && hx.Chance(rt, 70, "dup-two-files") {
+		nfiles = 2
+	}
+	files := make([]File, nfiles)
+	body := func(i int, what string) []Item {
+		out := []Item{{Lit: tag + ".f" + strconv.Itoa(i) + "." + what + strconv.Itoa(hx.Uniform(rt, 10, "lit"))}}
+		if hx.Chance(rt, 25, "fn?") {
+			out = append(out, Item{Fn: strings.ToLower(tag) + "f" + strconv.Itoa(i)})
+		}
+		return out
+	}
+	for i := range files {
+		files[i] = File{Layer: layer, Owner: owner, Dir: dirPool[hx.Uniform(rt, len(dirPool), "dir")], Name: "f" + strconv.Itoa(i), Ext: "EXT",
+			Sep: sepPool[hx.Uniform(rt, len(sepPool), "sep")]}
+	}
+	if dup {
+		for i := range files {
+			for _, n := range pool {
+				if hx.Chance(rt, 50, "def?") {
+					files[i].Blocks = append(files[i].Blocks, Block{Name: n, Body: body(i, "d")})
+				}
+			}
+			if hx.Chance(rt, 40, "top?") {
+				files[i].Top = append([]Item{{Lit: "[" + tag + "]"}}, body(i, "T")...)
+			}
+		}
+	} else {
+		for _, n := range pool {
+			if hx.Chance(rt, 50, "def?") {
+				i := hx.Uniform(rt, nfiles, "file-of-def")
+				files[i].Blocks = append(files[i].Blocks, Block{Name: n, Body: body(i, "d")})
+			}
+		}
+		if hx.Chance(rt, 35, "top?") {
+			i := hx.Uniform(rt, nfiles, "file-of-top")
+			files[i].Top = append([]Item{{Lit: "[" + tag + "]"}}, body(i, "T")...)
+		}
+	}
+	var out []File
+	for i, f := range files {
+		if len(f.Blocks) == 0 && len(f.Top) == 0 {
+			if i > 0 {
+				continue
+			}
+			f.Blocks = []Block{{Name: pool[0], Body: body(i, "d")}}
+		}
+		out = append(out, f)
+	}
+	return out
+}
+
+// GenLoose draws a consistency-only case.
+func GenLoose(rt *rapid.T) LooseCase {
+	var c LooseCase
+	mode := hx.Uniform(rt, 3, "mode") // 0 broken files, 1 same-layer duplicates, 2 both
+	withBroken, withDup := mode != 1, mode != 0
+	layouts := subset(rt, []string{"default", "admin", "bad"}, 1, 2, "layouts")
+	views := subset(rt, []string{"home", "about", "user/profile"}, 1, 3, "views")
+	type inst struct{ layer, owner, tag string }
+	var insts []inst
+	if hx.Chance(rt, 80, "helpers?") {
+		insts = append(insts, inst{"h", "", "H"})
+	}
+	for i, l := range layouts {
+		insts = append(insts, inst{"l", l, "L" + strconv.Itoa(i)})
+	}
+	for i, v := range views {
+		insts = append(insts, inst{"v", v, "V" + strconv.Itoa(i)})
+	}
+	// which layers are broken / ambiguous: one forced, the others by chance. Helpers are broken
+	// rarely (everything fails then).
+	forcedBroken, forcedDup := -1, -1
+	if withBroken {
+		forcedBroken = hx.Uniform(rt, len(insts), "broken-layer")
+		if insts[forcedBroken].layer == "h" && len(insts) > 1 && !hx.Chance(rt, 25, "broken-helpers") {
+			forcedBroken = 1 + hx.Uniform(rt, len(insts)-1, "broken-layer2")
+		}
+	}
+	if withDup {
+		forcedDup = hx.Uniform(rt, len(insts), "dup-layer")
+	}
+	for i, in := range insts {
+		dup := withDup && (i == forcedDup || hx.Chance(rt, 30, "dup?"))
+		fl := genLooseLayer(rt, in.layer, in.owner, in.tag, dup)
+		if withBroken && (i == forcedBroken || (in.layer != "h" && hx.Chance(rt, 12, "broken?"))) {
+			b := File{Layer: in.layer, Owner: in.owner, Dir: dirPool[hx.Uniform(rt, len(dirPool), "bdir")], Name: "f9", Ext: "EXT",
+				Broken: []string{"syntax", "empty"}[hx.Uniform(rt, 2, "broken-kind")]}
+			at := hx.Uniform(rt, len(fl)+1, "broken-at") // position in the listing order
+			if hx.Chance(rt, 20, "broken-only") {
+				fl, at = nil, 0
+			}
+			fl = append(fl[:at], append([]File{b}, fl[at:]...)...)
+		}
+		c.Files = append(c.Files, fl...)
+	}
+	nreq := 2 + hx.Uniform(rt, 5, "nreq")
+	for i := 0; i < nreq; i++ {
+		l := layouts[hx.Uniform(rt, len(layouts), "lp")]
+		switch k := hx.Uniform(rt, 100, "lk"); {
+		case k < 8:
+			l = ""
+		case k < 14:
+			l = "nolayout"
+		}
+		v := views[hx.Uniform(rt, len(views), "vp")]
+		if hx.Chance(rt, 8, "vmissing") {
+			v = "noview"
+		}
+		switch k := hx.Uniform(rt, 100, "op"); {
+		case k < 65:
+			c.Reqs = append(c.Reqs, Req{Op: "view", Layout: l, View: v})
+		case k < 90:
+			c.Reqs = append(c.Reqs, Req{Op: "layout", Layout: l})
+		default:
+			c.Reqs = append(c.Reqs, Req{Op: "base"})
+		}
+	}
+	return c
+}
+
 // GenConc draws a concurrent case.
 func GenConc(rt *rapid.T) ConcCase {
 	c := ConcCase{Kind: []string{"html", "text"}[hx.Uniform(rt, 2, "kind")], Cached: hx.Chance(rt, 80, "cached")}
@@ -343,6 +482,17 @@ func GenConc(rt *rapid.T) ConcCase {
 	}
 	if len(c.Keys) == 0 {
 		c.Keys = append(c.Keys, Req{Op: "view", Layout: layouts[0], View: views[0]})
+	}
+	if hx.Chance(rt, 25, "broken-layout") {
+		// a layout whose directory holds a file the loader refuses: every request touching it must
+		// fail (or succeed) the same way for every caller, and nothing may crash
+		c.Files = append(c.Files, genLayer(rt, "l", "bad", "LB", 35, 0, 1, false)...)
+		c.Files = append(c.Files, File{Layer: "l", Owner: "bad", Name: "f9", Ext: "EXT", Broken: []string{"syntax", "empty"}[hx.Uniform(rt, 2, "broken-kind")]})
+		c.Keys = append(c.Keys, Req{Op: "layout", Layout: "bad"})
+		n := 1 + hx.Uniform(rt, 3, "nbadviews")
+		for i := 0; i < n && i < len(views); i++ {
+			c.Keys = append(c.Keys, Req{Op: "view", Layout: "bad", View: views[i]})
+		}
 	}
 	if hx.Chance(rt, 25, "shared-ancestors") && !hx.Excluded(exAncestor) {
 		for _, l := range layouts {
@@ -438,7 +588,15 @@ func itemsText(items []Item) string {
 	return b.String()
 }
 
+const brokenSyntax = `{{define "a"}}unterminated {{`
+
 func (f File) content() string {
+	switch f.Broken {
+	case "syntax":
+		return brokenSyntax
+	case "empty":
+		return ""
+	}
 	if f.Raw != "" {
 		return f.Raw
 	}
@@ -456,7 +614,15 @@ var fnOK = regexp.MustCompile(`^[a-z0-9]+$`)
 const rootGuess = "baseTemplate" // the providers' root name; definitions must not use it
 
 // validate rejects case files outside the generated domain (hand-written replays).
-func validate(files []File) error {
+func validate(files []File) error { return validateDomain(files, domain{}) }
+
+// domain widens the strict domain for the kinds with consistency-only clauses.
+type domain struct {
+	broken bool // broken matching files allowed
+	loose  bool // same-layer duplicates and several top-level bodies allowed; no {{template}} calls
+}
+
+func validateDomain(files []File, dom domain) error {
 	type lk struct{ layer, owner string }
 	seen := map[lk]map[string]bool{}
 	tops := map[lk]int{}
@@ -466,6 +632,9 @@ func validate(files []File) error {
 		for _, it := range items {
 			switch {
 			case it.Call != "":
+				if dom.loose {
+					return fmt.Errorf("template call in a loose case (the winner of a duplicate is not modelled)")
+				}
 				if j := defIndex(it.Call); j >= 0 && j <= self {
 					return fmt.Errorf("call %q would allow a cycle", it.Call)
 				}
@@ -505,6 +674,12 @@ func validate(files []File) error {
 		if f.Raw != "" {
 			return fmt.Errorf("file %s: raw content in a matching file", p)
 		}
+		if f.Broken != "" {
+			if !dom.broken || (f.Broken != "syntax" && f.Broken != "empty") {
+				return fmt.Errorf("file %s: broken=%q outside the domain of this kind", p, f.Broken)
+			}
+			continue
+		}
 		if len(f.Blocks) == 0 && len(f.Top) == 0 {
 			return fmt.Errorf("file %s: empty template file (refused by the loader by design)", p)
 		}
@@ -515,8 +690,13 @@ func validate(files []File) error {
 		if seen[k] == nil {
 			seen[k] = map[string]bool{}
 		}
+		inFile := map[string]bool{}
 		for _, b := range f.Blocks {
-			if seen[k][b.Name] {
+			if inFile[b.Name] {
+				return fmt.Errorf("name %q defined twice within one file", b.Name)
+			}
+			inFile[b.Name] = true
+			if seen[k][b.Name] && !dom.loose {
 				return fmt.Errorf("name %q defined twice within one layer (file order would decide)", b.Name)
 			}
 			seen[k][b.Name] = true
@@ -536,7 +716,7 @@ func validate(files []File) error {
 		}
 		if len(f.Top) > 0 {
 			tops[k]++
-			if tops[k] > 1 {
+			if tops[k] > 1 && !dom.loose {
 				return fmt.Errorf("two top-level bodies within one layer")
 			}
 			if err := checkItems(f.Top, -1); err != nil {
@@ -561,6 +741,9 @@ func validate(files []File) error {
 type layerModel struct {
 	defs map[string][]Item
 	root []Item // nil = no top-level body
+	// broken: the layer contains a matching file the loader refuses. ambiguous: two files of the
+	// layer define the same name or carry top-level text (no winner modelled).
+	broken, ambiguous bool
 }
 
 type model struct {
@@ -593,10 +776,22 @@ func buildModel(files []File) *model {
 			continue
 		}
 		lm := get(f)
+		if f.Broken != "" {
+			lm.broken = true
+		}
 		for _, b := range f.Blocks {
+			if f.Broken != "" {
+				break
+			}
+			if _, dup := lm.defs[b.Name]; dup {
+				lm.ambiguous = true
+			}
 			lm.defs[b.Name] = b.Body
 		}
-		if len(f.Top) > 0 {
+		if len(f.Top) > 0 && f.Broken == "" {
+			if lm.root != nil {
+				lm.ambiguous = true
+			}
 			root := append([]Item{}, f.Top...)
 			if s := strings.Repeat(f.Sep, len(f.Blocks)); s != "" {
 				root = append(root, Item{Lit: s})
@@ -646,6 +841,29 @@ func (m *model) effective(r Req) (map[string][]Item, []Item) {
 		add(lm)
 	}
 	return defs, root
+}
+
+// chain reports whether the layers a request is built from contain a broken file / an
+// ambiguous (same-layer duplicate) definition.
+func (m *model) chain(r Req) (broken, ambiguous bool) {
+	add := func(lm layerModel) {
+		broken = broken || lm.broken
+		ambiguous = ambiguous || lm.ambiguous
+	}
+	add(m.helpers)
+	if r.Op == "base" {
+		return
+	}
+	if lm, ok := m.layouts[normLayout(r.Layout)]; ok {
+		add(lm)
+	}
+	if r.Op == "layout" {
+		return
+	}
+	if lm, ok := m.views[r.View]; ok {
+		add(lm)
+	}
+	return
 }
 
 type renderErr struct{ msg string }
@@ -1168,6 +1386,203 @@ func classify(c Case, m *model, v *hx.Verdict) {
 }
 
 // ---------------------------------------------------------------------------------------
+// Consistency-only executor
+
+// fingerprint is everything observable of a returned template: the defined names and the
+// rendering (or failure) of each, and of the template itself.
+func fingerprint(t tpl) string {
+	root := t.rootName()
+	var names []string
+	for _, n := range t.names() {
+		if n != root {
+			names = append(names, n)
+		}
+	}
+	sort.Strings(names)
+	var b strings.Builder
+	for _, n := range names {
+		s, err := t.render(n)
+		if err != nil {
+			s = "<error>"
+		}
+		fmt.Fprintf(&b, "%q=%q ", n, s)
+	}
+	s, err := t.renderRoot()
+	if err != nil {
+		s = "<error>"
+	}
+	fmt.Fprintf(&b, "ROOT=%q", s)
+	return b.String()
+}
+
+const obsError = "<request failed>"
+
+// observe issues one request; a panic is reported through the second result.
+func observe(p prov, r Req) (obs string, t tpl, panicked string) {
+	defer func() {
+		if x := recover(); x != nil {
+			panicked = fmt.Sprintf("%v\n%s", x, tail(string(debugStack()), 1800))
+		}
+	}()
+	t, err := p.do(r)
+	if err != nil {
+		return obsError, nil, ""
+	}
+	if t.isNil() {
+		return "<nil template without error>", nil, ""
+	}
+	return fingerprint(t), t, ""
+}
+
+// ExecLoose runs a consistency-only case.
+func ExecLoose(c LooseCase) hx.Verdict {
+	ch := make(chan hx.Verdict, 1)
+	go func() { ch <- hx.Guard(func() hx.Verdict { return runLoose(c) }) }()
+	return <-ch
+}
+
+func runLoose(c LooseCase) hx.Verdict {
+	if err := validateDomain(c.Files, domain{broken: true, loose: true}); err != nil {
+		return inconclusive("case outside the generated domain: %v", err)
+	}
+	for _, r := range c.Reqs {
+		if r.Op == "view" && r.View == "" {
+			return inconclusive("case outside the generated domain: empty view name")
+		}
+	}
+	m := buildModel(c.Files)
+	v := hx.Pass()
+	labels := map[string]bool{}
+	touched := false
+	for _, kind := range []string{"html", "text"} {
+		fs, err := buildFS(kind, c.Files)
+		if err != nil {
+			return inconclusive("setup: %v", err)
+		}
+		provs := []prov{newProv(kind, true, fs), newProv(kind, false, fs)}
+		first := map[Req]string{} // first observation of a request (this kind)
+		who := map[Req]string{}
+		for pass := 1; pass <= 3; pass++ {
+			if pass == 3 {
+				// fresh providers over the SAME filespace must agree with the old ones
+				fc, fu := newProv(kind, true, fs), newProv(kind, false, fs)
+				fc.label += " (fresh)"
+				fu.label += " (fresh)"
+				provs = append(provs, fc, fu)
+			}
+			for i, r := range c.Reqs {
+				broken, ambiguous := m.chain(r)
+				for _, p := range provs {
+					obs, t, pan := observe(p, r)
+					if pan != "" {
+						f := hx.Fail("no-panic", "%s provider, %s, ask %d: panic: %s", p.label, r, pass, pan)
+						f.Step = i
+						return f
+					}
+					if obs == "<nil template without error>" {
+						f := hx.Fail("request", "%s provider, %s, ask %d: returned neither a template nor an error", p.label, r, pass)
+						f.Step = i
+						return f
+					}
+					if prev, ok := first[r]; !ok {
+						first[r], who[r] = obs, fmt.Sprintf("%s ask %d", p.label, pass)
+					} else if prev != obs {
+						f := hx.Fail("consistency", "%s: %s provider at ask %d observed\n  %s\nbut %s observed\n  %s", r, p.label, pass, obs, who[r], prev)
+						f.Step = i
+						return f
+					}
+					// requests that touch neither a broken nor an ambiguous layer follow the model
+					if !broken && !ambiguous {
+						e, err := m.expect(r)
+						if err != nil {
+							return inconclusive("model: %v", err)
+						}
+						if t == nil {
+							f := hx.Fail("request", "%s provider, %s, ask %d: error although every file of its helpers/layout/view chain is valid", p.label, r, pass)
+							f.Step = i
+							return f
+						}
+						if cl, d := compare(t, e); cl != "" {
+							f := hx.Fail(cl, "%s provider, %s, ask %d: %s", p.label, r, pass, d)
+							f.Step = i
+							return f
+						}
+					}
+				}
+				if kind == "html" && pass == 1 {
+					switch {
+					case broken:
+						labels["loose-req-touches-broken"] = true
+						touched = true
+					case ambiguous:
+						labels["loose-req-touches-duplicate"] = true
+						touched = true
+					default:
+						labels["loose-req-clean-modelled"] = true
+					}
+					if broken && first[r] != obsError {
+						labels["loose-broken-but-succeeds"] = true
+					}
+				}
+			}
+		}
+	}
+	for _, f := range c.Files {
+		switch f.Broken {
+		case "syntax":
+			labels["loose-broken-syntax"] = true
+		case "empty":
+			labels["loose-broken-empty"] = true
+		}
+	}
+	for _, lm := range m.layouts {
+		if lm.broken {
+			labels["loose-broken-layout"] = true
+		}
+	}
+	dupName, multiTop := looseAmbiguity(c.Files)
+	if dupName {
+		labels["loose-dup-name"] = true
+	}
+	if multiTop {
+		labels["loose-multi-top"] = true
+	}
+	for l := range labels {
+		v.Label(l)
+	}
+	v.NonTrivial = touched && len(c.Reqs) >= 2
+	return v
+}
+
+func looseAmbiguity(files []File) (dupName, multiTop bool) {
+	type lk struct{ layer, owner string }
+	names := map[lk]map[string]bool{}
+	tops := map[lk]int{}
+	for _, f := range files {
+		if !f.matches() || f.Broken != "" {
+			continue
+		}
+		k := lk{f.Layer, f.Owner}
+		if names[k] == nil {
+			names[k] = map[string]bool{}
+		}
+		for _, b := range f.Blocks {
+			if names[k][b.Name] {
+				dupName = true
+			}
+			names[k][b.Name] = true
+		}
+		if len(f.Top) > 0 {
+			tops[k]++
+			if tops[k] > 1 {
+				multiTop = true
+			}
+		}
+	}
+	return
+}
+
+// ---------------------------------------------------------------------------------------
 // Concurrent executor (parent side)
 
 const childEnv = "VERIF_C19_CHILD"
@@ -1185,7 +1600,7 @@ var crashRe = regexp.MustCompile(`(?m)^(fatal error: .*|panic: .*|unexpected fau
 
 // ExecConc runs a concurrent case in a child process and judges exit status and output.
 func ExecConc(c ConcCase) hx.Verdict {
-	if err := validate(c.Files); err != nil {
+	if err := validateDomain(c.Files, domain{broken: true}); err != nil {
 		return inconclusive("case outside the generated domain: %v", err)
 	}
 	if (c.Kind != "html" && c.Kind != "text") || len(c.Keys) == 0 || len(c.Plans) == 0 || c.Rounds < 1 || c.Rounds > 1000 || len(c.Plans) > 64 {
@@ -1243,6 +1658,12 @@ func ExecConc(c ConcCase) hx.Verdict {
 	for _, k := range c.Keys {
 		if k.Op != "view" {
 			v.Label("conc-layout-or-base-requests")
+			break
+		}
+	}
+	for _, f := range c.Files {
+		if f.Broken != "" {
+			v.Label("conc-broken-layout")
 			break
 		}
 	}
@@ -1306,6 +1727,8 @@ func ExecConc(c ConcCase) hx.Verdict {
 	return v
 }
 
+func debugStack() []byte { return debug.Stack() }
+
 func tail(s string, n int) string {
 	if len(s) > n {
 		return "..." + s[len(s)-n:]
@@ -1359,7 +1782,10 @@ func ChildMain() {
 	}
 	m := buildModel(c.Files)
 	exps := make([]expect, len(c.Keys))
+	unmodelled := make([]bool, len(c.Keys)) // the request touches a broken layer: consistency only
+	agreed := map[int]string{}              // first observation of such a key (all rounds, all callers)
 	for i, r := range c.Keys {
+		unmodelled[i], _ = m.chain(r)
 		if exps[i], err = m.expect(r); err != nil {
 			res.Setup = "model: " + err.Error()
 			emit()
@@ -1403,6 +1829,24 @@ func ChildMain() {
 				done := map[id]bool{}
 				n := 0
 				for _, r := range results {
+					if unmodelled[r.key] {
+						obs := obsError
+						if r.err == nil && r.t.isNil() {
+							obs = "<nil template without error>"
+						} else if r.err == nil {
+							obs = fingerprint(r.t)
+						}
+						mu.Lock()
+						prev, ok := agreed[r.key]
+						if !ok {
+							agreed[r.key] = obs
+						}
+						mu.Unlock()
+						if ok && prev != obs {
+							mismatch(fmt.Sprintf("round %d goroutine %d: %s observed %s, another caller observed %s", round, g, c.Keys[r.key], obs, prev))
+						}
+						continue
+					}
 					if r.err != nil || r.t.isNil() {
 						mismatch(fmt.Sprintf("round %d goroutine %d: %s returned error %v", round, g, c.Keys[r.key], r.err))
 						continue
